@@ -638,6 +638,8 @@ type c15Run struct {
 	mode    string                  // server mode for chmod: gm, auto, tls ("" = by role)
 	offer   []uint16                // shmod: the client's Config.CipherSuites
 	hold    bool                    // shmod: deliver the first item only, the rest once E is seen to wait for it
+	minV    uint16                  // chmod: the server's Config.MinVersion / MaxVersion (0 = unset)
+	maxV    uint16
 }
 
 type c15Result struct {
@@ -759,6 +761,9 @@ func c15Exec(rn c15Run) (res c15Result) {
 	}
 	if rn.offer != nil {
 		ccfg.CipherSuites = rn.offer
+	}
+	if rn.minV != 0 || rn.maxV != 0 {
+		scfg.MinVersion, scfg.MaxVersion = rn.minV, rn.maxV
 	}
 	if rn.fl["resume"] {
 		first := runPair(ccfg, scfg, pairOpts{})
@@ -1134,6 +1139,16 @@ func c15HexList(s string, width int) ([]uint16, bool) {
 // server, and how the server answered the hello (reject = protocol_version alert, nosuite = handshake_failure
 // before any ServerHello, sh:<version>:<suite>)
 func evalChmod(args []string) string {
+	// optional 4th argument lim:<min hhhh>:<max hhhh> = the server's Config.MinVersion / MaxVersion (0000 = unset)
+	var limMin, limMax uint16
+	if len(args) == 4 && strings.HasPrefix(args[3], "lim:") {
+		v, ok := c15HexList(strings.ReplaceAll(args[3][4:], ":", "."), 4)
+		if !ok || len(v) != 2 {
+			return "bad-op"
+		}
+		limMin, limMax = v[0], v[1]
+		args = args[:3]
+	}
 	if len(args) != 3 {
 		return "bad-op"
 	}
@@ -1185,7 +1200,7 @@ func evalChmod(args []string) string {
 	}
 	role := map[string]string{"gm": "gmserver", "tls": "tlsserver", "auto": "autoserver"}[mode]
 	fl := map[string]bool{kind: true}
-	res := c15Exec(c15Run{role: role, fl: fl, sc: &c15Script{}, eofOut: -1, rewrite: rewrite, mode: mode})
+	res := c15Exec(c15Run{role: role, fl: fl, sc: &c15Script{}, eofOut: -1, rewrite: rewrite, mode: mode, minV: limMin, maxV: limMax})
 	if !parsed {
 		return "ORACLE-FAIL:harness-could-not-parse-the-genuine-hello"
 	}
@@ -1640,6 +1655,17 @@ func genC15(r *rng, tier string, emit func(string)) {
 		}
 		for _, v := range bounds {
 			vers(v)
+		}
+		// the same with version limits configured on the server: a client_version above the limit is answered with
+		// the limit, one below the minimum or in the gap 0x0102..0x02ff is refused whatever the limits are
+		lims := [][2]int{{0, 0x0101}, {0x0101, 0x0101}, {0, 0x0302}, {0x0302, 0x0303}, {0x0301, 0x0301}, {0x0303, 0}, {0, 0x0301}}
+		for _, lm := range lims {
+			if (cb[0] == "gm") != (lm[1] == 0x0101) || cb[0] == "auto" {
+				continue
+			}
+			for _, v := range []int{0x0100, 0x0101, 0x0102, 0x0200, 0x02ff, 0x0300, 0x0301, 0x0302, 0x0303, 0x0304, 0xffff} {
+				emit(fmt.Sprintf("chmod %s %s vers:%04x lim:%04x:%04x", cb[0], cb[1], v, lm[0], lm[1]))
+			}
 		}
 		if thorough && ci < 4 {
 			for v := 0; v <= 0x0400; v++ {
